@@ -330,3 +330,23 @@ Proof. reflexivity. Qed.
 Lemma src_RegionFromHeartbeat_ok : Gen_C06.src_RegionFromHeartbeat =
   "{ v2 := v0.GetApproximateSize() / (1 << 20) if v2 < EmptyRegionApproximateSize { v2 = EmptyRegionApproximateSize } v3 := &RegionInfo{ term: v0.GetTerm(), meta: v0.GetRegion(), leader: v0.GetLeader(), downPeers: v0.GetDownPeers(), pendingPeers: v0.GetPendingPeers(), writtenBytes: v0.GetBytesWritten(), writtenKeys: v0.GetKeysWritten(), readBytes: v0.GetBytesRead(), readKeys: v0.GetKeysRead(), approximateSize: int64(v2), approximateKeys: int64(v0.GetApproximateKeys()), interval: v0.GetInterval(), replicationStatus: v0.GetReplicationStatus(), QueryStats: v0.GetQueryStats(), } for _, v4 := range v1 { v4(v3) } if v3.writtenKeys >= ImpossibleFlowSize || v3.writtenBytes >= ImpossibleFlowSize { v3.writtenKeys = 0 v3.writtenBytes = 0 } if v3.readKeys >= ImpossibleFlowSize || v3.readBytes >= ImpossibleFlowSize { v3.readKeys = 0 v3.readBytes = 0 } sort.Sort(peerStatsSlice(v3.downPeers)) sort.Sort(peerSlice(v3.pendingPeers)) classifyVoterAndLearner(v3) return v3 }".
 Proof. reflexivity. Qed.
+
+(* server/core/basic_cluster.go: (BasicCluster).ScanRange, body *)
+Lemma src_bc_ScanRange_ok : Gen_C06.src_bc_ScanRange =
+  "{ v0.RLock() defer v0.RUnlock() return v0.Regions.ScanRange(v1, v2, v3) }".
+Proof. reflexivity. Qed.
+
+(* server/core/basic_cluster.go: (BasicCluster).CheckAndPutRegion, body *)
+Lemma src_bc_CheckAndPutRegion_ok : Gen_C06.src_bc_CheckAndPutRegion =
+  "{ v2, v3 := v0.PreCheckPutRegion(v1) if v3 != nil { return []*RegionInfo{v1} } return v0.PutRegion(v1) }".
+Proof. reflexivity. Qed.
+
+(* server/core/basic_cluster.go: (BasicCluster).CheckAndPutLoadedRegion, body *)
+Lemma src_bc_CheckAndPutLoadedRegion_ok : Gen_C06.src_bc_CheckAndPutLoadedRegion =
+  "{ v3 := v0.CheckAndPutRegion(v1) if len(v3) == 1 && v3[0] == v1 { if v4 := v0.GetRegion(v1.GetID()); v4 != nil { if v5 := v2(v4.GetMeta()); v5 != nil { } return nil } } return v3 }".
+Proof. reflexivity. Qed.
+
+(* server/server.go: (Server).createRaftCluster, body *)
+Lemma src_server_createRaftCluster_ok : Gen_C06.src_server_createRaftCluster =
+  "{ if v0.cluster.IsRunning() { return nil } return v0.cluster.Start(v0) }".
+Proof. reflexivity. Qed.
